@@ -4,10 +4,10 @@ SPEC = {
     "lean_modules": ["SemaModel.C17.Props"],
     "lean_dirs": ["SemaModel/C17"],
     "harness": "c17",
-    "harness_args": {"quick": ["-n", 400, "-big", 15, "-curate", 3000], "thorough": ["-n", 3000, "-big", 100, "-curate", 50000]},
+    "harness_args": {"quick": ["-n", 400, "-big", 15, "-curate", 3000, "-fault", 24], "thorough": ["-n", 3000, "-big", 100, "-curate", 50000, "-fault", 160]},
     "timeout": {"quick": 900, "thorough": 3000},
     "level": "proof",
-    "tie": "T3: go/cmd/c17 builds fresh clusters of 1..3 real in-process servers (NewNode + Serve on loopback) with small per-shard point limits (1..8 shards per collection), drives insert / update / delete / search through every live entry node, stops one server in many scenarios, and runs the Lean model on the same op lines; what is an oracle for the model (placement of inserted points, each shard's answer to a query) is read from the shards directly; the property oracles are evaluated on the real responses; the real curateFailedPoints is also called directly through cluster/verif_export.go. T2: Generated/FactsC17.lean pins the constants (as float32 bit patterns, used by the driver) and the expression text of the per-shard limit, the offset rule, the cut and the score comparison of ClusterNode.SearchPoints",
+    "tie": "T3: go/cmd/c17 builds fresh clusters of 1..3 real in-process servers (NewNode + Serve on loopback) with small per-shard point limits (1..8 shards per collection), drives insert / update / delete / search through every live entry node, stops one server in many scenarios, and runs the Lean model on the same op lines; what is an oracle for the model (placement of inserted points, each shard's answer to a query) is read from the shards directly; the property oracles are evaluated on the real responses; the real curateFailedPoints is also called directly through cluster/verif_export.go; fault scenarios (go/cmd/c17/fault.go, faultnet.go): real nodes whose RPC service runs on a transport the harness controls (requests swallowed past the time-out, connections killed mid-call / during the back-off / while idle so that the caller's cached client is shut down, dials refused), RpcRetries 1..3, update / delete / search and single calls of the real internalRoute under those scripts, with 'which shard's handler completed' measured by a recorder in front of the handlers and the Lean model of the retry loop run on the scripted event list. T2: the control skeleton of internalRoute's retry loop (Generated/FactsC17.routeSkeleton); Generated/FactsC17.lean pins the constants (as float32 bit patterns, used by the driver) and the expression text of the per-shard limit, the offset rule, the cut and the score comparison of ClusterNode.SearchPoints",
     "required_theorems": [
         "Sema.C17.C17_curate", "Sema.C17.C17_binarySearch", "Sema.C17.C17_curate_mergeSort", "Sema.C17.C17_curate_precondition",
         "Sema.C17.C17_failed_update", "Sema.C17.C17_failed_delete", "Sema.C17.C17_failed_message",
@@ -15,12 +15,15 @@ SPEC = {
         "Sema.C17.C17_once_count_update", "Sema.C17.C17_once_count_delete",
         "Sema.C17.C17_search", "Sema.C17.C17_search_unavailable", "Sema.C17.C17_search_all",
         "Sema.C17.C17_sort_score", "Sema.C17.C17_sort_keys",
+        "Sema.C17.C17_route_nil", "Sema.C17.C17_routed_up", "Sema.C17.C17_route_unreachable", "Sema.C17.C17_route_zero_retries",
+        "Sema.C17.C17_failed_message_routed", "Sema.C17.C17_failed_message_delete", "Sema.C17.C17_failed_message_routed_delete", "Sema.C17.C17_search_routed",
     ],
     "trusted_base": [
         "the hand-written model SemaModel/C17/Model.lean (transcription of cluster/actions.go UpdatePoints, DeletePoints, curateFailedPoints incl. the loop of slices.BinarySearchFunc, SearchPoints); mitigated by the line-by-line correspondence on real clusters",
         "slices.SortFunc (pdqsort) returns a sorted permutation of its input (assumed; the theorems hold for every such function, the driver uses insertion sort); ties are compared as groups",
         "one shard = a finite map id -> payload with paging = drop offset / take limit of its ranking (shard/shard.go); ranking inside a shard is C03-C06 and is an oracle argument here; placement of inserted points (distributePoints) is C15 and is an oracle argument",
-        "net/rpc + msgpack codec: a call to a live server returns the handler's answer, a call to a stopped server returns an error (cached client connections are dropped by the harness through a verif hook, because http.Server.Shutdown does not close hijacked RPC connections)",
+        "net/rpc client + msgpack codec: Go() on a client whose connection has ended answers rpc.ErrShutdown, a pending call whose connection ends gets another error, an answered call gets the handler's answer (the retry loop of internalRoute around these outcomes is modelled — Sema.C17.route — and driven on a controllable transport; time, i.e. the back-off sleeps, is not modelled)",
+        "fault scenarios: a request swallowed by a stalled connection is never delivered later (the harness only ends a stall by killing the connection), so 'handler completed' = 'delivered and answered'",
         "float32 arithmetic of the per-shard limit is evaluated by Lean's Float32 (IEEE single) in the driver; the theorems hold for every heuristic function",
         "uuid order (bytes.Compare) is abstracted to a linear order on id tokens; curateFailedPoints' result does not depend on it (C17_curate)",
         "values of sort properties are int64 or string after msgpack decoding (what the harness stores); other reflect kinds of utils.CompareAny are not modelled",
@@ -36,7 +39,7 @@ def search(ctx):
     r = ctx["runner"]
     out = os.path.join(ctx["rundir"], "search")
     n = "600" if ctx["tier"] == "quick" else "3000"
-    rc, o, dt = r.sh([ctx["hbin"], "-seed", str(ctx["seed"] + 7919), "-n", n, "-big", "20", "-curate", "20000", "-out", out], env=r.GOENV, timeout=2400)
+    rc, o, dt = r.sh([ctx["hbin"], "-seed", str(ctx["seed"] + 7919), "-n", n, "-big", "20", "-curate", "20000", "-fault", "48", "-out", out], env=r.GOENV, timeout=2400)
     sp = os.path.join(out, "stats.json")
     if not os.path.exists(sp):
         return None
